@@ -62,12 +62,14 @@ type HarnessResult struct {
 	Remaining  int
 	Violations []Violation
 	Passes     []PathRec
+	Unsupported []PathRec // paths the engine could not encode to the end: replayed natively on a solver-generated input (concolic fallback)
 	EngineErr  string
 	// filled by native confirmation
 	Confirmed   []ConfirmedViolation
 	Unconfirmed []Violation
 	TracesValidated int
 	TraceMismatches []string
+	ConcolicRuns    int
 }
 
 type ConfirmedViolation struct {
@@ -108,6 +110,7 @@ func explore(ld *Loaded, spec HarnessSpec, tier string, seed int64, workers int,
 		}
 		solvers = append(solvers, sv)
 		wg.Add(1)
+		deep := w%2 == 1
 		go func(sv *Solver) {
 			defer wg.Done()
 			defer func() {
@@ -130,13 +133,13 @@ func explore(ld *Loaded, spec HarnessSpec, tier string, seed int64, workers int,
 					return
 				}
 				if time.Now().After(deadline) {
-					if len(e.work) > 0 {
+					if e.work.n > 0 {
 						res.TimedOut = true
 					}
 					e.mu.Unlock()
 					return
 				}
-				if len(e.work) == 0 {
+				if e.work.n == 0 {
 					if e.active == 0 {
 						e.mu.Unlock()
 						return
@@ -145,14 +148,14 @@ func explore(ld *Loaded, spec HarnessSpec, tier string, seed int64, workers int,
 					time.Sleep(time.Millisecond)
 					continue
 				}
-				prefix := e.popWork()
+				prefix := e.popWork(deep)
 				e.active++
 				e.mu.Unlock()
 
 				st := &State{e: e, solver: sv, prefix: prefix, globals: map[*ssa.Global]*value{}, covers: map[string]bool{}, funcs: map[string]int{}, deadline: deadline}
 				outcome := e.runPath(st, hfn)
 				var rec *PathRec
-				if outcome.kind == "ok" || outcome.kind == "panic" {
+				if outcome.kind == "ok" || outcome.kind == "panic" || outcome.kind == "unsupported" {
 					// a model of the final path condition: witness for trace validation / panic confirmation
 					if sv.Check(True) == "sat" {
 						rec = &PathRec{Witness: st.witness(), Trace: st.trace, Outcome: outcome.kind, Msg: outcome.msg}
@@ -165,6 +168,8 @@ func explore(ld *Loaded, spec HarnessSpec, tier string, seed int64, workers int,
 				if rec != nil {
 					if outcome.kind == "panic" {
 						e.Violations = append(e.Violations, Violation{Label: "panic: " + panicSig(outcome.msg), Detail: outcome.msg, Witness: rec.Witness, Path: append([]bool{}, st.taken...), IsPanic: true})
+					} else if outcome.kind == "unsupported" {
+						res.Unsupported = append(res.Unsupported, *rec)
 					} else {
 						res.Passes = append(res.Passes, *rec)
 					}
@@ -187,14 +192,14 @@ func explore(ld *Loaded, spec HarnessSpec, tier string, seed int64, workers int,
 					res.Funcs[f] += n
 				}
 				if res.Paths%2000 == 0 {
-					fmt.Fprintf(os.Stderr, "  .. %s paths=%d work=%d elapsed=%v\n", spec.Name, res.Paths, len(e.work), time.Since(t1).Round(time.Millisecond))
+					fmt.Fprintf(os.Stderr, "  .. %s paths=%d work=%d elapsed=%v\n", spec.Name, res.Paths, e.work.n, time.Since(t1).Round(time.Millisecond))
 				}
 				e.mu.Unlock()
 			}
 		}(sv)
 	}
 	wg.Wait()
-	res.Remaining = len(e.work)
+	res.Remaining = e.work.n
 	res.Wall = time.Since(t1)
 	for _, sv := range solvers {
 		res.Queries += sv.Queries
